@@ -561,7 +561,7 @@ def run_config(item, ctx):
         if v is not None:
             v['plan'] = plan
             violations.append(v)
-        if idx % 16 == 0 and h == 0 and not stats['samples']:
+        if h == 0 and not stats['samples']:
             stats['samples'].append({'config': cfg, 'faults': plan['faults'],
                                      'reference': ref, 'violation': v['invariant'] if v else None})
     return _pack(stats, violations, idx)
